@@ -3,6 +3,7 @@
      kind   1 implementation agrees with the Spec but not with the model's representation
             2 shape or elements differ from the Spec        3 exception class / raised-or-not differs
             4 scalar-vs-0-d rule   5 fill value not kept    6 result not well-formed   7 hang   8 bad case
+            9 Spec/NpIndex.v disagrees with NumPy's own answer on the dense input (Spec wrong)
      clause 0 inside the proved domain, otherwise the first failed domain clause (names in
             tools/props/c02_index.py:CLAUSES). *)
 From Coq Require Import ZArith List Bool.
@@ -115,15 +116,18 @@ Definition model_kind (fmt : Z) (unsigned : bool) (input out : sarr) (ix : index
   | _ => 0
   end.
 
-Definition gcase := (Z * bool * sarr * index * sarr)%type.
+(* (format, unsigned coords?, input as the implementation holds it, index, x[index], todense()[index] by NumPy) *)
+Definition gcase := (Z * bool * sarr * index * sarr * sarr)%type.
 
 Definition judge_getitem (c : gcase) : Z :=
-  let '(fmt, unsigned, input, ix, out) := c in
+  let '(fmt, unsigned, input, ix, out, npout) := c in
   match sarr_shape input, sarr_flat input with
   | Some sh, Some flat =>
     let k := spec_kind input out sh flat ix in
     let cl := clause_of fmt unsigned sh ix in
-    if negb (k =? 0) then k + 10 * cl
+    (* the Spec itself against NumPy (kind 9), inside the grammar *)
+    if in_grammar ix && negb (spec_kind input npout sh flat ix =? 0) then 9 + 10 * cl
+    else if negb (k =? 0) then k + 10 * cl
     else
       let mk := model_kind fmt unsigned input out ix in
       if mk =? 0 then 0 else mk + 10 * cl
@@ -134,7 +138,7 @@ Definition judge_getitem (c : gcase) : Z :=
    expected outcome: 0 IndexError 1 other error 2 scalar 3 array ; mask kind (COO model, k = all axes):
    0 n/a, 1 slice, 2 list, 3 one index array, 4 several index arrays, 5 returned x itself *)
 Definition tag_getitem (c : gcase) : Z :=
-  let '(fmt, unsigned, input, ix, out) := c in
+  let '(fmt, unsigned, input, ix, out, npout) := c in
   match sarr_shape input with
   | Some sh =>
     let o := match np_index sh ix with
